@@ -189,7 +189,7 @@ def evaluate_guard(run):
 @harness(['C04'], 'supp.util.cached_property / supp.util.context_property')
 def memo_descriptors(run):
     """cached_property: computes once, stores under the function's name, later reads hit the instance dict;
-    context_property: one value per (object, function name), computed once"""
+    context_property: one value per (object, function name, evaluation context): computed once per context, never handed to another context"""
     import supp.util as U
 
     def go(path):
@@ -208,7 +208,14 @@ def memo_descriptors(run):
         a = A()
         x1, x2 = a.v, a.v
         prove('cached-property-computes-once', x1 is x2 and calls == ['v'] and a.__dict__['v'] is x1, path=path)
-        y1, y2 = a.w('ctx1'), a.w('ctx2')
-        prove('context-property-computes-once-per-object', y1 is y2 and calls == ['v', 'w'], path=path)
+        c1, c2 = object(), object()
+        y1, y2 = a.w(c1), a.w(c1)
+        prove('context-property-computes-once-per-evaluation-context', y1 is y2 and calls == ['v', 'w'], path=path)
+        y3 = a.w(c2)
+        prove('context-property-never-serves-another-contexts-value', y3 is not y1 and calls == ['v', 'w', 'w'],
+              clause='a value computed in one evaluation context (one request) may rest on an evaluation that context cut short: another context '
+                     'computes its own', path=path)
+        y4 = a.w(c2)
+        prove('context-property-memoises-in-the-new-context', y4 is y3 and calls == ['v', 'w', 'w'], path=path)
         prove('class-access-returns-the-descriptor', isinstance(A.v, U.cached_property), path=path)
     core.explore(lambda: None, lambda p, out: go(p))
